@@ -11,7 +11,10 @@ the measured pulses is read off at the end.
 Sub-checks
   space_state   single band: ``eng.run(prog, shots=None, space_unroll=True)`` (or ``prog.space_unroll()`` first)
                 returns exactly the measured pulses 0..timebins-1 (``crop``: from ``get_crop_value()`` on) with the
-                reference means / covariance.
+                reference means / covariance.  A quarter of the programs have the documented delay-loop layout with
+                beamsplitter arrays that start with zeros, so that the crop value is really > 0; for those the crop value
+                itself is compared with the number of leading vacuum pulses of the explicit loop.  The options reach the
+                engine as keywords, through ``prog.run_options`` or both (all sub-checks).
   unroll_chain  ``unroll`` (register shifting) with homodyne detection: RngSpy records the (mean, cov) handed to
                 ``np.random.multivariate_normal`` at every measurement and forces the outcome; the chain of conditional
                 distributions must equal the chain obtained by conditioning the reference joint Gaussian on the same
@@ -42,10 +45,13 @@ from vf import gen, refsim, spec
 from vf.core import Sub, Violation, crash_signature
 from vf.rngspy import RngSpy
 
-RULE = ("generated TDMProgram (1..3 bands of 1..6 concurrent modes, total <= 12, 1..6 time bins, 1..6 Gaussian gates with "
-        "constant or per-bin array parameters on arbitrary register positions incl. across bands, some daggered; homodyne "
-        "(angle constant or array) or Fock detection of the first mode of every band; shift default or integer) run with "
-        "1..3 shots through unroll / space_unroll, or driven through a random history of unroll / space_unroll / roll / run "
+RULE = ("generated TDMProgram (1..5 bands of 1..6 concurrent modes, total <= 14, 1..6 time bins, 1..6 Gaussian gates with "
+        "constant or per-bin array parameters (also arithmetic a*p[i] + b*p[j] + c on the loop variables) on arbitrary register "
+        "positions incl. across bands, some daggered; homodyne (angle constant, array or expression; post-selected incl. the value "
+        "0) or Fock detection of the first mode of every band; shift default or integer), or the documented delay-loop layout "
+        "(1..3 loops of delay 1..3 one after the other, beamsplitter arrays that start with exact zeros, 2..8 bins), run with "
+        "1..3 shots through unroll / space_unroll with shots / crop / space_unroll given as keyword, through prog.run_options, "
+        "both or left at the default, or driven through a random history of unroll / space_unroll / roll / run "
         "calls; non-trivial = at least two time bins and a two-mode gate with a mixing parameter that is not a multiple of "
         "pi/2 (a real loop: different pulses interfere), or a history that contains roll() after an (space-)unroll; "
         "distinct = distinct JSON")
@@ -62,16 +68,29 @@ ASSUMPTIONS = [
     "the source): programs with MeasureFock are only run with shots=None or checked for roll-back",
     "multi-band programs are never space-unrolled with a state claim (the property restricts that to single-band programs)",
     "Program.locked and RegRef.val are not part of the roll-back comparison",
-    "crop: the crop value is taken from prog.get_crop_value() (its definition is not part of this property); crop is only "
-    "generated for single-band programs without MZgate / S2gate, whose compiled circuit has the beamsplitters of the source",
+    "crop: the crop value is taken from prog.get_crop_value(); crop is only generated for single-band programs without MZgate / "
+    "S2gate, whose compiled circuit has the beamsplitters of the source.  Its value is only checked for the delay-loop layout "
+    "(source on the last position squeezing every bin by |r| >= 0.15, loops in circuit order from the source to the detector, "
+    "beamsplitter angles from arrays of the form [0]*k + non-zero values in 0.3..1.2), where the docstring of get_crop_value "
+    "('the number of vacuum modes arriving at the detector before the first computational mode') has an unambiguous meaning: "
+    "the number of leading measured pulses of the explicit loop that are exactly vacuum (deviation < 1e-12; a pulse with a "
+    "deviation between 1e-12 and 1e-6 leaves the case undecided).  Arrays with a zero after the first non-zero angle are not "
+    "generated (audit finding crop-value-loop-closes-again)",
+    "run options: prog.run_options are the documented defaults of eng.run and a keyword passed to eng.run takes precedence "
+    "(docstring of TDMProgram.run_options); shots left out everywhere means shots = 1",
+    "arithmetic on loop variables is only generated in angle slots (bounded effect on the energy); a*p - a*p is not generated",
     "when the engine is handed an already unrolled program it runs it with the shots it was unrolled with: the machine "
     "passes the same number to run()",
 ]
 REQUIRED_LABELS = {"all": ["multi_band", "band_start_ge_8", "shots_gt1", "dagger_in_loop", "space_then_roll_then_space",
-                           "integer_shift", "two_mode_across_bands", "array_index_ge_10"]}
+                           "integer_shift", "two_mode_across_bands", "array_index_ge_10", "band_start_ge_10", "bands_ge_4",
+                           "delay_loop_layout", "crop_value_gt0", "crop_value_inside", "expr_two_loop_variables",
+                           "shots_via_run_options", "shots_via_keyword_over_run_options", "shots_via_default",
+                           "crop_via_run_options", "space_unroll_via_run_options", "select_zero_in_loop"]}
 
 EPS2 = 0.0002 ** 2
 SELECT = 0.25  # post-selection value of measurements of kind "hselect" (only used to see whether unrolling keeps it)
+SELECTS = {"hselect": SELECT, "hselect0": 0.0}  # "hselect0": the post-selection value 0 (a value that is false in Python)
 PI = float(np.pi)
 
 
@@ -144,7 +163,32 @@ def starts_of(N):
 
 
 def _num(x, arrays, t):
-    return arrays[x[1]][t] if isinstance(x, list) else x
+    """value of a parameter spec in time bin t: a number, ["p", i] = p[i][t], or the user-written expression
+    ["lin", i, j, a, b, c] = a * p[i][t] + b * p[j][t] + c"""
+    if not isinstance(x, list):
+        return x
+    if x[0] == "lin":
+        _, i, j, a, b, c = x
+        return a * arrays[i][t] + b * arrays[j][t] + c
+    return arrays[x[1]][t]
+
+
+def _refs(x):
+    """indices of the parameter arrays a parameter spec refers to"""
+    if not isinstance(x, list):
+        return []
+    return [x[1], x[2]] if x[0] == "lin" else [x[1]]
+
+
+def _sym(x, p):
+    """the parameter as the user writes it inside the context (p = loop variables)"""
+    if not isinstance(x, list):
+        return x
+    if x[0] == "lin":
+        _, i, j, a, b, c = x
+        e = (p[i] if a == 1 else a * p[i]) + (p[j] if b == 1 else b * p[j])
+        return e + c if c != 0 else e
+    return p[x[1]]
 
 
 def explicit_loop(ps, shots, drop_dagger=False, force_default_shift=False):
@@ -233,16 +277,16 @@ def build_tdm(ps):
     kw = {} if ps["shift"] == "default" else {"shift": ps["shift"]}
     with prog.context(*[list(a) for a in ps["arrays"]], **kw) as (p, q):
         for name, params, pos, flags in ps["body"]:
-            op = getattr(ops, name)(*[p[x[1]] if isinstance(x, list) else x for x in params])
+            op = getattr(ops, name)(*[_sym(x, p) for x in params])
             if flags.get("H"):
                 op = op.H
             op | (tuple(q[j] for j in pos) if len(pos) > 1 else q[pos[0]])
         st_ = starts_of(N)
         for band, kind, ang in ps["meas"]:
             if kind == "homodyne":
-                ops.MeasureHomodyne(p[ang[1]] if isinstance(ang, list) else ang) | q[st_[band]]
-            elif kind == "hselect":
-                ops.MeasureHomodyne(p[ang[1]] if isinstance(ang, list) else ang, select=SELECT) | q[st_[band]]
+                ops.MeasureHomodyne(_sym(ang, p)) | q[st_[band]]
+            elif kind in SELECTS:
+                ops.MeasureHomodyne(_sym(ang, p), select=SELECTS[kind]) | q[st_[band]]
             else:
                 ops.MeasureFock() | q[st_[band]]
     return prog
@@ -475,7 +519,10 @@ GATE_SLOTS = {"Sgate": ["rs", "angle"], "Rgate": ["angle"], "Dgate": ["rd", "ang
               # gates whose gaussian decomposition rewrites the parameter (rare, see `expr_gates`)
               "Xgate": ["x"], "Zgate": ["x"], "Pgate": ["x"], "CXgate": ["x"], "CZgate": ["x"]}
 TWO = {"BSgate", "MZgate", "S2gate", "CXgate", "CZgate"}
-N_WIDE = [[3, 6, 2], [2, 6, 3], [4, 4, 2], [6, 2, 3], [1, 6, 5], [4, 5, 1], [3, 6], [6, 3, 1], [2, 2, 6], [5, 4, 3]]
+# wide registers; band starts with two digits (0, 5, 11: numeric order != order of the decimal strings), four / five bands
+N_WIDE = [[3, 6, 2], [5, 6, 1], [2, 6, 3], [3, 3, 4, 2], [4, 4, 2], [6, 4, 2], [6, 2, 3], [1, 6, 5], [6, 6, 2], [4, 5, 1], [3, 6],
+          [2, 3, 1, 4, 2], [6, 3, 1], [2, 2, 6], [5, 4, 3], [4, 6, 1, 2]]
+LIN_COEF = [1, -1, 2, 0.5, -0.5]
 
 
 def _slot(kind):
@@ -484,7 +531,8 @@ def _slot(kind):
 
 
 @st.composite
-def tdm_spec(draw, bands=None, meas_kinds=("homodyne",), max_body=6, wide=False, shifts=True, expr_gates=False, max_T=6):
+def tdm_spec(draw, bands=None, meas_kinds=("homodyne",), max_body=6, wide=False, shifts=True, expr_gates=False, max_T=6,
+             exprs=False):
     if bands == 1:
         N = [draw(st.integers(1, 6))]
     elif wide or draw(st.integers(0, 3)) == 0:
@@ -508,10 +556,20 @@ def tdm_spec(draw, bands=None, meas_kinds=("homodyne",), max_body=6, wide=False,
             kinds.append(kd)
         cap = len(arrays) + 4
 
+    # user-written arithmetic on the loop variables (a * p[i] + b * p[j] + c, also with i == j) in angle slots
+    use_exprs = exprs and draw(st.integers(0, 2)) == 0
+
     def param(kind):
         how = draw(st.integers(0, 2))
         if how == 0:
             return draw(_slot(kind))
+        ang = [i for i, k in enumerate(kinds) if k == "angle"]
+        if use_exprs and kind == "angle" and ang and draw(st.integers(0, 1)) == 0:
+            i, j = draw(st.sampled_from(ang)), draw(st.sampled_from(ang))
+            a, b = draw(st.sampled_from(LIN_COEF)), draw(st.sampled_from(LIN_COEF))
+            if i == j and a + b == 0:
+                b = a  # a * p - a * p is the number 0, not an expression
+            return ["lin", i, j, a, b, draw(st.sampled_from([0.0, 0.25, -1.0]))]
         same = [i for i, k in enumerate(kinds) if k == kind]
         if same and (len(arrays) >= cap or draw(st.booleans())):
             return ["p", draw(st.sampled_from(same))]
@@ -563,7 +621,7 @@ def real_loop(ps, shots=1):
     for name, params, _, _ in ps["body"]:
         if name in ("BSgate", "MZgate", "S2gate"):
             x = params[0]
-            vals = ps["arrays"][x[1]] if isinstance(x, list) else [x]
+            vals = [_num(x, ps["arrays"], t) for t in range(ps["T"])] if isinstance(x, list) else [x]
             if name == "S2gate":
                 if any(abs(v) > 1e-6 for v in vals):
                     return True
@@ -597,15 +655,29 @@ def spec_labels(ps, shots=1):
         labs.append("bands_measured_out_of_order")
     if any(m[1] == "fock" for m in ps["meas"]):
         labs.append("fock_detection")
-    if any(m[1] == "hselect" for m in ps["meas"]):
+    if any(m[1] in SELECTS for m in ps["meas"]):
         labs.append("select_in_loop")
+    if any(m[1] == "hselect0" for m in ps["meas"]):
+        labs.append("select_zero_in_loop")
     if any(isinstance(x, list) for _, _, x in ps["meas"]):
         labs.append("angle_from_array")
     if any(g[0] in EXPR_GATES for g in ps["body"]):
         labs.append("decomposed_gate_in_loop")
-    used = [x[1] for o in ps["body"] for x in o[1] if isinstance(x, list)] + [m[2][1] for m in ps["meas"] if isinstance(m[2], list)]
+    specs = [x for o in ps["body"] for x in o[1]] + [m[2] for m in ps["meas"]]
+    used = [i for x in specs for i in _refs(x)]
     if any(i >= 10 for i in used):
         labs.append("array_index_ge_10")
+    lins = [x for x in specs if isinstance(x, list) and x[0] == "lin"]
+    if lins:
+        labs.append("expr_parameter")
+        if any(x[1] != x[2] for x in lins):
+            labs.append("expr_two_loop_variables")
+    if any(s >= 10 for s in st_):
+        labs.append("band_start_ge_10")
+    if len(N) >= 4:
+        labs.append("bands_ge_4")
+    if ps.get("delays"):
+        labs.append("delay_loop_layout")
     labs.append("bins:%d" % ps["T"])
     return labs
 
@@ -620,29 +692,160 @@ BASE = st.lists(gen.fl(-1.5, 1.5), min_size=1, max_size=4)
 
 
 @st.composite
+def loops_spec(draw, max_T=8):
+    """The documented delay-loop layout (tdm.utils.get_mode_indices, the Borealis circuit): one band of 1 + sum(delays)
+    concurrent modes, the source squeezes the last register position in every bin, loop i is a beamsplitter between the
+    positions n[i+1] and n[i] = n[i+1] + delays[i] whose angle comes from a parameter array, the detector sits at position 0.
+    The beamsplitter arrays start with a run of exact zeros (loop closed: BSgate(0) is the identity), so the first light
+    reaches the detector some bins late and `crop` has something to crop."""
+    delays = draw(st.lists(st.integers(1, 3), min_size=1, max_size=3))
+    total = 1 + sum(delays)
+    n = [total - sum(([1] + delays)[:i + 1]) for i in range(len(delays) + 1)]
+    T = draw(st.integers(2, max_T))
+    sign = st.sampled_from([1.0, -1.0])
+    arrays = [[draw(sign) * draw(gen.fl(0.15, 0.35)) for _ in range(T)]]  # squeezing: light in every bin
+    body = [["Sgate", [["p", 0], draw(st.sampled_from([0.0, 0.6]))], [n[0]], {}]]
+    for i, d in enumerate(delays):
+        if draw(st.integers(0, 2)) == 0:
+            if draw(st.booleans()):
+                arrays.append([draw(gen.angle()) for _ in range(T)])
+                body.append(["Rgate", [["p", len(arrays) - 1]], [n[i]], {}])
+            else:
+                body.append(["Rgate", [draw(gen.angle())], [n[i]], {}])
+        z = min(T, draw(st.sampled_from([0, 1, 2, d, d + 1, 1, T])))
+        # AUDIT-FINDING crop-value-loop-closes-again: no exact zero after the first non-zero angle.  get_crop_value() assumes
+        # that light keeps arriving at the next loop once it has arrived; with a loop that closes again (angles [0.7, 0, ..]
+        # followed by a loop with angles [0, 0.7, ..], delays [2, 2]) it returns 1 although two vacuum pulses reach the detector
+        alpha = [0.0] * z + [draw(sign) * draw(gen.fl(0.3, 1.2)) for _ in range(T - z)]
+        arrays.append(alpha)
+        pos = [n[i + 1], n[i]] if draw(st.integers(0, 3)) > 0 else [n[i], n[i + 1]]
+        body.append(["BSgate", [["p", len(arrays) - 1], draw(st.sampled_from([PI / 2, 0.0, 0.4]))], pos, {}])
+    ang = 0.0
+    if draw(st.booleans()):
+        arrays.append([draw(gen.angle()) for _ in range(T)])
+        ang = ["p", len(arrays) - 1]
+    ps = {"N": [total], "T": T, "arrays": arrays, "shift": "default", "body": body, "meas": [[0, "homodyne", ang]],
+          "delays": delays}
+    if draw(st.booleans()):
+        ps["N_as_int"] = True
+    return ps
+
+
+def leading_vacuum_pulses(ps):
+    """number of measured pulses that reach the detector before any light does, read off the explicit loop (None when a
+    pulse is neither exactly vacuum nor clearly not)"""
+    ex = explicit_loop(ps, 1, force_default_shift=True)
+    mu, V = joint_of(ex, [m["pulse"] for m in ex["meas"]])
+    T = ps["T"]
+    for t in range(T):
+        dev = max(abs(V[t, t] - 1.0), abs(V[T + t, T + t] - 1.0), abs(mu[t]), abs(mu[T + t]))
+        if dev > 1e-6:
+            return t
+        if dev > 1e-12:
+            return None
+    return T
+
+
+def crop_value_of(ctx, ps, prog):
+    """(rejected?, crop value).  The value is the repo's; for the delay-loop layout it is also checked against its
+    documented meaning ("the number of vacuum modes arriving at the detector before the first computational mode")."""
+    try:
+        cv = int(prog.get_crop_value())
+    except NotImplementedError as exc:
+        if ps.get("delays"):
+            ctx.fail("crop.sequential_loops_rejected", "get_crop_value() of a single-band program with the loops %s one after the "
+                     "other raised NotImplementedError(%s)" % (ps["delays"], exc))
+        return True, 0
+    if ps.get("delays"):
+        want = leading_vacuum_pulses(ps)
+        if want is None:
+            ctx.label("crop_oracle_undecided")
+        elif want != cv:
+            ctx.fail("crop.value_is_not_number_of_leading_vacuum_pulses",
+                     "delays %s, %d bins: get_crop_value() = %d but in the explicit loop the first %d measured pulses are vacuum "
+                     "(beamsplitter arrays %s)" % (ps["delays"], ps["T"], cv, want,
+                                                   [ps["arrays"][g[1][0][1]] for g in ps["body"] if g[0] == "BSgate"]))
+            return True, cv
+    return False, cv
+
+
+SHOTS_VIA = ["kw", "kw", "ro", "both", "default"]
+
+
+@st.composite
+def run_opts(draw, shots_free=True):
+    """how the run options reach the engine: keyword argument of eng.run, prog.run_options (the documented defaults),
+    both (the keyword wins) or not at all (shots: 1)"""
+    return {"shots": draw(st.sampled_from(SHOTS_VIA if shots_free else SHOTS_VIA[:4])), "crop": draw(st.sampled_from(["kw", "ro", "both"])),
+            "space": draw(st.sampled_from(["kw", "ro"]))}
+
+
+def split_options(case, opts):
+    """(keyword arguments of eng.run, prog.run_options) for the intended options `opts` (shots / crop / space_unroll)"""
+    via = case.get("opts") or {}
+    kw, ro = {}, {}
+    for key, val in opts.items():
+        how = via.get({"space_unroll": "space"}.get(key, key), "kw")
+        if how == "default":
+            continue
+        if how in ("kw", "both"):
+            kw[key] = val
+        if how == "ro":
+            ro[key] = val
+        if how == "both":  # a different default in run_options, overridden by the keyword
+            ro[key] = {"shots": 2 if val in (None, 1, 3) else 3, "crop": False}[key]
+    return kw, ro
+
+
+def option_labels(case, opts):
+    via = case.get("opts") or {}
+    labs = []
+    for key in opts:
+        how = via.get({"space_unroll": "space"}.get(key, key), "kw")
+        if how != "kw":
+            labs.append("%s_via_%s" % (key, {"ro": "run_options", "both": "keyword_over_run_options", "default": "default"}[how]))
+    return labs
+
+
+@st.composite
 def space_case(draw):
-    ps = draw(tdm_spec(bands=1, meas_kinds=("homodyne", "homodyne", "fock")))
-    return {"prog": ps, "pre": draw(st.booleans()), "crop": crop_ok(ps) and draw(st.integers(0, 3)) == 0}
+    if draw(st.integers(0, 3)) == 0:
+        ps = draw(loops_spec())
+        crop = draw(st.integers(0, 3)) > 0
+    else:
+        ps = draw(tdm_spec(bands=1, meas_kinds=("homodyne", "homodyne", "fock"), exprs=True))
+        crop = crop_ok(ps) and draw(st.integers(0, 3)) == 0
+    return {"prog": ps, "pre": draw(st.booleans()), "crop": crop, "opts": draw(run_opts(shots_free=False))}
 
 
 @st.composite
 def unroll_case(draw):
-    ps = draw(tdm_spec(expr_gates=True))
-    return {"prog": ps, "shots": draw(st.sampled_from([1, 1, 2, 3])), "pre": draw(st.integers(0, 2)) == 0, "base": draw(BASE),
-            "mode": "unroll", "crop": False}
+    ps = draw(tdm_spec(expr_gates=True, exprs=True))
+    opts = draw(run_opts())
+    shots = 1 if opts["shots"] == "default" else draw(st.sampled_from([1, 1, 2, 3]))
+    return {"prog": ps, "shots": shots, "pre": draw(st.integers(0, 2)) == 0, "base": draw(BASE),
+            "mode": "unroll", "crop": False, "opts": opts}
 
 
 @st.composite
 def arrangement_case(draw):
     mode = draw(st.sampled_from(["unroll", "unroll", "unroll", "space"]))
+    opts = draw(run_opts())
+    loops = draw(st.integers(0, 3)) == 0
     if mode == "space":
-        ps = draw(tdm_spec(bands=1, max_body=2, shifts=False))
-        return {"prog": ps, "shots": 1, "pre": draw(st.booleans()), "base": draw(BASE), "mode": "space",
-                "crop": crop_ok(ps) and draw(st.integers(0, 3)) == 0}
-    wide = draw(st.integers(0, 2)) > 0
-    ps = draw(tdm_spec(wide=wide, max_body=2))
-    return {"prog": ps, "shots": draw(st.sampled_from([1, 2, 3])), "pre": draw(st.integers(0, 2)) == 0, "base": draw(BASE),
-            "mode": "unroll", "crop": crop_ok(ps) and draw(st.integers(0, 2)) == 0}
+        ps = draw(loops_spec(max_T=5) if loops else tdm_spec(bands=1, max_body=2, shifts=False))
+        crop = draw(st.integers(0, 3)) > 0 if loops else crop_ok(ps) and draw(st.integers(0, 3)) == 0
+        return {"prog": ps, "shots": 1, "pre": draw(st.booleans()), "base": draw(BASE), "mode": "space", "crop": crop, "opts": opts}
+    shots = 1 if opts["shots"] == "default" else draw(st.sampled_from([1, 2, 3]))
+    if loops:
+        ps = draw(loops_spec())
+        crop = draw(st.integers(0, 3)) > 0
+    else:
+        wide = draw(st.integers(0, 2)) > 0
+        ps = draw(tdm_spec(wide=wide, max_body=2))
+        crop = crop_ok(ps) and draw(st.integers(0, 2)) == 0
+    return {"prog": ps, "shots": shots, "pre": draw(st.integers(0, 2)) == 0, "base": draw(BASE), "mode": "unroll", "crop": crop,
+            "opts": opts}
 
 
 # ---------------------------------------------------------------------------------------------
@@ -650,22 +853,29 @@ def arrangement_case(draw):
 # ---------------------------------------------------------------------------------------------
 def check_space(ctx, case):
     ps, pre, crop = case["prog"], case["pre"], case["crop"]
-    labels = spec_labels(ps) + ["space_unroll", "pre_space_unrolled" if pre else "space_unroll_option"] + (["crop"] if crop else [])
+    opts = {"shots": None}
+    if crop:
+        opts["crop"] = True
+    if not pre:
+        opts["space_unroll"] = True
+    labels = (spec_labels(ps) + ["space_unroll", "pre_space_unrolled" if pre else "space_unroll_option"] + (["crop"] if crop else [])
+              + option_labels(case, opts))
     prog = build_tdm(ps)
     cv = 0
     if crop:
-        try:
-            cv = int(prog.get_crop_value())
-        except NotImplementedError:
+        rejected, cv = crop_value_of(ctx, ps, prog)
+        if rejected:
             ctx.note(case, False, labels + ["rejected:crop_value"])
             return None
+        labels = labels + (["crop_value_gt0"] if cv > 0 else []) + (["crop_value_inside"] if 0 < cv < ps["T"] else [])
     ctx.note(case, nontrivial=real_loop(ps), labels=labels)
+    kw, ro = split_options(case, opts)
     try:
+        if ro:
+            prog.run_options = ro
         if pre:
             prog.space_unroll()
-            res, _ = run_spied(prog, [0.0], shots=None, **({"crop": True} if crop else {}))
-        else:
-            res, _ = run_spied(prog, [0.0], shots=None, space_unroll=True, **({"crop": True} if crop else {}))
+        res, _ = run_spied(prog, [0.0], **kw)
     except NotImplementedError as exc:
         if crop and "not implemented" in str(exc):
             ctx.label("rejected:crop_value")
@@ -677,31 +887,37 @@ def check_space(ctx, case):
         return None
     if np.size(res.samples) != 0 or res.samples_dict:
         return ctx.fail("shots_none.samples_returned", "samples %r returned with shots=None" % (res.samples,))
-    verify_space_state(ctx, ps, res.state, "space_unroll%s" % (" + crop" if crop else ""), cv)
+    verify_space_state(ctx, ps, res.state, "space_unroll%s (run(%s), run_options %s)" % (" + crop" if crop else "", kw, ro), cv)
     return None
 
 
 def check_unroll(ctx, case):
     ps, shots, pre, base, mode, crop = case["prog"], case["shots"], case["pre"], case["base"], case["mode"], case["crop"]
-    labels = spec_labels(ps, shots) + (["crop"] if crop else []) + (["pre_unrolled"] if pre else []) + ["mode:" + mode]
+    opts = {"shots": shots}
+    if crop:
+        opts["crop"] = True
+    if mode == "space" and not pre:
+        opts["space_unroll"] = True
+    labels = (spec_labels(ps, shots) + (["crop"] if crop else []) + (["pre_unrolled"] if pre else []) + ["mode:" + mode]
+              + option_labels(case, opts))
     prog = build_tdm(ps)
     cv = 0
     if crop:
-        try:
-            cv = int(prog.get_crop_value())
-        except NotImplementedError:
+        rejected, cv = crop_value_of(ctx, ps, prog)
+        if rejected:
             ctx.note(case, False, labels + ["rejected:crop_value"])
             return None
+        labels = labels + (["crop_value_gt0"] if cv > 0 else []) + (["crop_value_inside"] if 0 < cv < ps["T"] else [])
+        if cv > 0 and shots > 1:
+            labels.append("crop_value_gt0_shots_gt1")
     ctx.note(case, nontrivial=real_loop(ps, shots), labels=labels)
-    kw = {"shots": shots}
-    if crop:
-        kw["crop"] = True
+    kw, ro = split_options(case, opts)
     try:
+        if ro:
+            prog.run_options = ro
         if mode == "space":
             if pre:
                 prog.space_unroll(shots)
-            else:
-                kw["space_unroll"] = True
         elif pre:
             prog.unroll(shots)
         res, rec = run_spied(prog, base, **kw)
@@ -714,11 +930,14 @@ def check_unroll(ctx, case):
     except Exception as exc:  # pylint: disable=broad-except
         classify_crash(ctx, exc, ps, mode + ".run", shots, mode)
         return None
+    what = mode
+    if ro or len(kw) != len(opts):
+        what = "%s [run(%s), run_options = %s]" % (mode, ", ".join("%s=%r" % kv for kv in sorted(kw.items())), ro)
     eff, ex = loop_for(ps, shots, mode)
-    failed, values = verify_chain(ctx, eff, shots, rec, mode)
+    failed, values = verify_chain(ctx, eff, shots, rec, what)
     if failed:
         return None
-    verify_arrangement(ctx, eff, shots, res, values, mode + (" + crop" if crop else ""), cv, ex)
+    verify_arrangement(ctx, eff, shots, res, values, what + (" + crop" if crop else ""), cv, ex)
     return None
 
 
@@ -772,9 +991,9 @@ def circuit_mismatch(prog, cmds):
             return "generic", "command #%d (%s) has parameters %r, expected %r" % (i, name, got, vals)
         if bool(getattr(op, "dagger", False)) != bool(dg):
             return "dagger", "command #%d (%s) has dagger=%s, the loop body has dagger=%s" % (i, name, getattr(op, "dagger", False), dg)
-        if c[0] == "meas" and getattr(op, "select", None) != (SELECT if c[1] == "hselect" else None):
+        if c[0] == "meas" and getattr(op, "select", None) != SELECTS.get(c[1]):
             return "select", "command #%d (%s) has select=%r, the loop body has select=%r" % (
-                i, name, getattr(op, "select", None), SELECT if c[1] == "hselect" else None)
+                i, name, getattr(op, "select", None), SELECTS.get(c[1]))
     return None
 
 
@@ -796,7 +1015,7 @@ class History:
         self.trace = []
         self.single = len(ps["N"]) == 1
         self.homodyne = all(m[1] == "homodyne" for m in ps["meas"])
-        self.select = any(m[1] == "hselect" for m in ps["meas"])
+        self.select = any(m[1] in SELECTS for m in ps["meas"])
         self.rolled_after_unroll = False
         self.rejected_unroll_shots = None  # shots of a rejected unroll() since the last successful (space-)unroll / roll
         self.space_ids = None  # identity of the commands of the current space-unrolled circuit
@@ -1019,7 +1238,7 @@ def make_machine(ctx):
                     ctx.shrink_t0 = time.time()
                 raise
 
-        @initialize(ps=tdm_spec(meas_kinds=("homodyne",) * 6 + ("fock", "fock", "hselect"), max_body=4, max_T=4),
+        @initialize(ps=tdm_spec(meas_kinds=("homodyne",) * 6 + ("fock", "fock", "hselect", "hselect0"), max_body=4, max_T=4),
                     late=st.integers(0, 10))
         def start(self, ps, late):
             if ctx.failures and ctx.shrink_t0 is not None and time.time() - ctx.shrink_t0 > SHRINK_CAP_S[ctx.tier]:
